@@ -1627,6 +1627,7 @@ class Compiler:
                         "*": OpCode.MUL,
                         "/": OpCode.DIV,
                         "%": OpCode.MOD,
+                        "**": OpCode.POW,
                         "&": OpCode.BAND,
                         "|": OpCode.BOR,
                         "^": OpCode.BXOR,
@@ -1675,6 +1676,7 @@ class Compiler:
                         "*": OpCode.MUL,
                         "/": OpCode.DIV,
                         "%": OpCode.MOD,
+                        "**": OpCode.POW,
                         "&": OpCode.BAND,
                         "|": OpCode.BOR,
                         "^": OpCode.BXOR,
